@@ -162,6 +162,9 @@ theorem timeLe_eq (q : Query) (a b : Int) :
     timeLe q a b = (if (!q.desc) = true then decide (a ≤ b) else decide (b ≤ a)) := by
   unfold timeLe; cases q.desc <;> simp
 
+theorem strict_of (asc : Bool) (x y : Int) (h1 : ¬ tBefore asc y x) (h2 : x ≠ y) : tBefore asc x y := by
+  unfold tBefore at *; cases asc <;> simp at * <;> omega
+
 theorem seriesPoints_strict (q : Query) (s : Series V) (hs : Stored s) :
     List.Pairwise (fun a b => tBefore (!q.desc) a.t b.t) (seriesPoints q s) := by
   unfold seriesPoints
@@ -192,9 +195,8 @@ theorem C22_raw_merge (A : Arith22 V F) (q : Query) (db : List (Series V))
     | none =>
       simp only
       congr 1
-      have hord : seriesOrder (optOf q).asc db = orderedSeries q db := by
-        simp only [seriesOrder, orderedSeries, optOf]
-        cases q.desc <;> simp
+      have hord : seriesOrder (!q.desc) db = orderedSeries q db := by
+        by_cases hd : q.desc = true <;> simp [seriesOrder, orderedSeries, hd]
       have hstored : ∀ s ∈ orderedSeries q db, Stored s := by
         intro s hsm
         apply hs
@@ -210,13 +212,14 @@ theorem C22_raw_merge (A : Arith22 V F) (q : Query) (db : List (Series V))
         intro s
         have hfil : (fun (p : Pt V) => decide (startOf q ≤ p.t) && decide (p.t ≤ endOf q)) = inRange q := rfl
         simp only [seriesIter, seriesPoints, optOf, hfil]
-        by_cases hd : q.desc = true <;> simp [hd, toSP]
+        by_cases hd : q.desc = true <;> simp [hd, toSP] <;> rfl
       have hins : (orderedSeries q db).map (seriesIter (optOf q) false) =
           (orderedSeries q db).map (fun s => (seriesPoints q s).map toSP) := by
         apply List.map_congr_left; intro s _; exact hiter s
       have hflat : ((orderedSeries q db).map (fun s => (seriesPoints q s).map toSP)).flatten =
           (lookedAt q db).map toSP := by
         simp [lookedAt, List.flatMap, List.map_flatten]
+        rfl
       have hok : InputsOK (!q.desc) ((orderedSeries q db).map (fun s => (seriesPoints q s).map toSP)) := by
         intro l hl
         obtain ⟨s, hsm, rfl⟩ := List.mem_map.mp hl
@@ -237,8 +240,7 @@ theorem C22_raw_merge (A : Arith22 V F) (q : Query) (db : List (Series V))
         (fun h => fun h' => h h'.symm) hperm).mpr hdist'
       have hstrictM := (hsorted.and hdistM).imp (by
         intro a b hab
-        have h1 := hab.1; have h2 := hab.2
-        unfold tBefore at *; cases q.desc <;> simp at * <;> omega :
+        exact strict_of _ _ _ hab.1 hab.2 :
         ∀ {a b : SP V}, (¬ tBefore (!q.desc) b.t a.t) ∧ a.t ≠ b.t → tBefore (!q.desc) a.t b.t)
       -- the specification's sort of the same points
       have hsp := sortBy_perm (fun (a b : Pt V) => timeLe q a.t b.t) (lookedAt q db)
@@ -253,8 +255,7 @@ theorem C22_raw_merge (A : Arith22 V F) (q : Query) (db : List (Series V))
         (fun h => fun h' => h h'.symm) hsp).mpr hdist
       have hstrictS := (hss.and hdistS).imp (by
         intro a b hab
-        have h1 := hab.1; have h2 := hab.2
-        unfold tBefore at *; cases q.desc <;> simp at * <;> omega :
+        exact strict_of _ _ _ hab.1 hab.2 :
         ∀ {a b : Pt V}, (¬ tBefore (!q.desc) b.t a.t) ∧ a.t ≠ b.t → tBefore (!q.desc) a.t b.t)
       have hmergeEq : sortedMergeGo (!q.desc)
           ((((orderedSeries q db).map (fun s => (seriesPoints q s).map toSP)).map List.length).sum + 1)
@@ -265,7 +266,8 @@ theorem C22_raw_merge (A : Arith22 V F) (q : Query) (db : List (Series V))
         · rw [List.pairwise_map]; exact hstrictS
         · exact hperm.trans (hsp.map toSP).symm
       have hasc : (optOf q).asc = !q.desc := rfl
-      simp only [rawPipeline, hord, hnb, hins, hasc, hmergeEq]
+      simp only [rawPipeline, hnb, hasc]
+      rw [hord, hins, hmergeEq]
       have htag : ∀ p ∈ (sortBy (fun (a b : Pt V) => timeLe q a.t b.t) (lookedAt q db)).map toSP, p.tag = none := by
         intro p hp
         obtain ⟨x, _, rfl⟩ := List.mem_map.mp hp
@@ -301,24 +303,46 @@ theorem rowsEq_refl (A : Arith22 V F) (l : List (Row V F)) : rowsEq A l l = true
 theorem resultEq_refl (A : Arith22 V F) (r : Result V F) : resultEq A r r = true := by
   cases r <;> simp [resultEq, rowsEq_refl]
 
-/-- **C22 (partial)**: for every arithmetic, every raw statement of the subset (any
-    WHERE time range, ORDER BY direction, LIMIT, OFFSET, GROUP BY host) and every stored
-    series, the rows of the pipeline model are the rows of the reference evaluator.
-    Missing: several series (sorted merge), aggregate statements (call iterators, merge,
-    fill) — those stages are tied by correspondence only so far. -/
-theorem C22_holdsOn_partial (A : Arith22 V F) (q : Query) (s : Series V) (hs : Stored s)
-    (hraw : q.isRaw = true) : holdsOn A q [s] (run A q [s]) = true := by
-  rw [holdsOn, C22_raw_single A q s hs hraw]
+/-- the statements and databases `C22_holdsOn_partial` covers: raw statements over
+    stored series — one series (any clauses), or several series without GROUP BY host whose
+    looked-at timestamps are pairwise distinct -/
+def Covered (q : Query) (db : List (Series V)) : Prop :=
+  q.isRaw = true ∧ (∀ s ∈ db, Stored s) ∧
+    ((∃ s, db = [s]) ∨ (q.byHost = false ∧ List.Pairwise (fun a b => a.t ≠ b.t) (lookedAt q db)))
+
+/-- **C22 (partial)**: for every arithmetic, every covered raw statement (any WHERE time
+    range, ORDER BY direction, LIMIT, OFFSET; GROUP BY host over one series) the rows of the
+    pipeline model (storage iterators → sorted merge → limit iterator → scanner) are the rows
+    of the reference evaluator, so the statement checker accepts them.
+    Missing: GROUP BY host over several series, and all aggregate statements (call
+    iterators, merge + re-aggregation, interval, fill, row join) — tied by correspondence only. -/
+theorem C22_holdsOn_partial (A : Arith22 V F) (q : Query) (db : List (Series V)) (h : Covered q db) :
+    holdsOn A q db (run A q db) = true := by
+  obtain ⟨hraw, hs, hcase⟩ := h
+  have heq : run A q db = eval A q db := by
+    rcases hcase with ⟨s, rfl⟩ | ⟨hnb, hdist⟩
+    · exact C22_raw_single A q s (hs s (by simp)) hraw
+    · exact C22_raw_merge A q db hs hraw hnb hdist
+  rw [holdsOn, heq]
   exact resultEq_refl A _
 
 /-- the reference evaluator trivially satisfies its own statement (sanity) -/
 theorem C22_holdsOn_eval (A : Arith22 V F) (q : Query) (db : List (Series V)) :
     holdsOn A q db (eval A q db) = true := resultEq_refl A _
 
--- the hypotheses of `C22_holdsOn_partial` are met by a non-trivial statement and series
-example : Stored (⟨"a", [⟨1, (5 : Int)⟩, ⟨4, 7⟩, ⟨9, 2⟩]⟩ : Series Int) := by
-  simp [Stored]
-example : ({ calls := [], tmin := some 2, tmax := none, dur := 0, off := 0, byHost := true,
-             fill := .null, desc := true, limit := 1, offset := 1 } : Query).isRaw = true := rfl
+-- the hypotheses of `C22_holdsOn_partial` are met by a non-trivial statement and database
+def exampleQuery : Query :=
+  { calls := [], tmin := some 2, tmax := none, dur := 0, off := 0, byHost := false,
+    fill := Fill.null, desc := true, limit := 2, offset := 1 }
+
+def exampleDB : List (Series Int) :=
+  [⟨"a", [⟨1, 5⟩, ⟨4, 7⟩, ⟨9, 2⟩]⟩, ⟨"b", [⟨3, 1⟩, ⟨8, 0⟩]⟩]
+
+example : Covered exampleQuery exampleDB := by
+  refine ⟨rfl, ?_, Or.inr ⟨rfl, ?_⟩⟩
+  · intro s hs
+    simp [exampleDB] at hs
+    rcases hs with rfl | rfl <;> simp [Stored]
+  · decide
 
 end Influx.Props.C22
